@@ -39,6 +39,9 @@ func c09ExtraSeeds(release bool) []explore.Seed {
 		sp := gen.Spec{Name: "web", Replicas: 2, Policy: pol, Strategy: gen.RU(0), Limit: 1, Template: 1, Claims: []string{"data"}}
 		sc := gen.Scenario{Spec: sp, Revs: []int{1}, Cur: 0, Cells: []gen.Cell{gen.Absent, gen.Absent, gen.Absent}}
 		seeds = append(seeds, explore.Seed{Label: sc.String(), State: sc.Build(w)})
+		sp.Claims = []string{"data", "logs", "tmp"}
+		sc = gen.Scenario{Spec: sp, Revs: []int{1}, Cur: 0, Cells: []gen.Cell{gen.Absent, gen.Absent, gen.Absent}}
+		seeds = append(seeds, explore.Seed{Label: sc.String(), State: sc.Build(w)})
 		sp.Claims = nil
 		orphan := gen.Cell{Present: true, Phase: v1.PodRunning, Ready: true, Rev: 0, Owner: "none"}
 		nomatch := gen.Cell{Present: true, Phase: v1.PodRunning, Ready: true, Rev: 0, NoMatch: true}
